@@ -59,7 +59,14 @@ impl TypeChecker {
             Expr::FString(parts) => {
                 for part in parts {
                     if let FStringPart::Expr(e) = part {
+                        // The parser re-lexes each `{...}` fragment on its own, so spans *inside* `e` are
+                        // relative to the fragment text, not to the file. `e.span` is the f-string token:
+                        // locate everything reported from within there.
+                        let before = self.errors.len();
                         self.check_expr(e);
+                        for err in &mut self.errors[before..] {
+                            err.span = e.span;
+                        }
                     }
                 }
                 ResolvedType::Str
